@@ -13,7 +13,7 @@ from vlib.runner import Check, EnumClause, HypClause, Info, fail
 logging.disable(logging.CRITICAL)
 warnings.simplefilter("ignore", DeprecationWarning)
 
-TASK_BOUND = 8
+TASK_BOUND = 32  # absolute ceiling for any single run; independence from the number of cycles is checked separately (long clause)
 LATENCIES = [0.0, 0.5, 3.0]
 LIFETIMES = [None, 0.0, 0.3, 2.0, 7.0, 30.0]
 
@@ -181,27 +181,38 @@ def grid_size(tier):
 # ---- long runs: task bound over many reconnect cycles -----------------------------------------------------------------------------
 
 
-def long_oracle(case) -> Info:
-    cycles, mode = case
+def _long_script(cycles, mode):
     if mode == "fail-streak":
-        script = [("fail", 0.0, None)] * cycles
-    elif mode == "loss":
-        script = [("ok", 0.0, 0.3)] * cycles
-    elif mode == "fail-loss":
-        script = [("fail", 0.0, None), ("ok", 0.0, 0.3)] * (cycles // 2)
-    else:
-        script = [("ok", 0.5, 7.0)] * cycles
-    out = vtloop.run_scenario(script, horizon=cycles * (61.0 if mode == "fail-streak" else 12.0) + 100)
-    if out.get("aborted_task_explosion"):
-        w = out["world"]
-        fail(f"{w.max_tasks} asyncio tasks alive after {len(w.attempts)} reconnect cycles (bound {TASK_BOUND}): pending tasks grow with every cycle", sig="task-leak")
-    facts = judge(out, script[:6] + ["..."], f"{cycles} reconnect cycles ({mode})")
-    return Info(nontrivial=True, classes=(f"cycles:{cycles}", f"mode:{mode}"), sample={"cycles": cycles, "mode": mode, "attempts": facts["attempts"], "max_tasks": facts["max_tasks"]})
+        return [("fail", 0.0, None)] * cycles
+    if mode == "loss":
+        return [("ok", 0.0, 0.3)] * cycles
+    if mode == "fail-loss":
+        return [("fail", 0.0, None), ("ok", 0.0, 0.3)] * (cycles // 2)
+    return [("ok", 0.5, 7.0)] * cycles
+
+
+def long_oracle(case) -> Info:
+    """case = (mode, [cycle counts ascending]): the same kind of run at growing lengths; the task high-water mark must not grow."""
+    if isinstance(case[0], int):  # older replay files: (cycles, mode)
+        case = (case[1], [case[0]])
+    mode, sizes = case[0], list(case[1])
+    marks = []
+    for cycles in sizes:
+        script = _long_script(cycles, mode)
+        out = vtloop.run_scenario(script, horizon=cycles * (61.0 if mode == "fail-streak" else 12.0) + 100)
+        if out.get("aborted_task_explosion"):
+            w = out["world"]
+            fail(f"{w.max_tasks} asyncio tasks alive after {len(w.attempts)} reconnect cycles ({mode}): pending tasks grow with every cycle", sig="task-leak")
+        facts = judge(out, script[:6] + ["..."], f"{cycles} reconnect cycles ({mode})")
+        marks.append(facts["max_tasks"])
+    if marks[-1] > marks[0] + 2:
+        fail(f"task high-water mark grows with the number of reconnect cycles ({mode}): {dict(zip(sizes, marks))}", sig="task-leak")
+    return Info(nontrivial=True, classes=(f"mode:{mode}",), sample={"mode": mode, "max_tasks_by_cycles": dict(zip(map(str, sizes), marks))})
 
 
 def long_cases(tier):
     sizes = [50, 500] if tier == "quick" else [50, 500, 3000]
-    return [(n, m) for n in sizes for m in ("loss", "fail-loss", "slow")] + [(1200 if tier == "quick" else 5000, "fail-streak")]
+    return [(m, sizes) for m in ("loss", "fail-loss", "slow")] + [("fail-streak", [100, 1200] if tier == "quick" else [100, 1200, 5000])]
 
 
 def build() -> Check:
@@ -217,7 +228,7 @@ def build() -> Check:
             "after close(). scenarios: Hypothesis-drawn scripts (shrinkable); grid: ALL scripts over the step alphabet (length <=4 over 5 "
             "steps quick, length <=3 over 18 steps thorough); long: 50/500(/3000) reconnect cycles in three modes, and a streak of 1200 (thorough 5000) consecutive failed attempts, for the task bound and 'keeps reconnecting'. Invariants on the "
             "recorded trace: <=1 live connection; attempt n+1 only after attempt n ended and its connection ended; without close() the run "
-            "ends connected with attempts = failures + losses + 1; <= 8 tasks alive at any loop iteration; after close(): connect_loop() "
+            "ends connected with attempts = failures + losses + 1; never more than 32 tasks alive in any run and a task high-water mark that does not grow with the number of cycles (long clause: same mode at 50/500/3000 cycles, at most +2); after close(): connect_loop() "
             "returns at the same virtual time, no attempt starts afterwards, every transport obtained is closed by then (not merely dropped by the peer later). Non-trivial = close lands "
             "during a pending attempt or inside a sleep/latency, or the scenario has >=2 losses. evaluations counts scenarios; "
             "each scenario comprises tens of injected runs (sample 'runs')."
